@@ -34,9 +34,9 @@ ORDER = ['set_additional', 'check_connection_reset', 'buffer_frame', '_write', '
 ENUM_TYPES = {
     'WebSocketState': 'WsState', 'Role': 'Role', 'OpCode': 'OpCode', 'OpCtl': 'OpCtl', 'OpData': 'OpData',
     'CloseCode': 'CloseCode', 'Message': 'Message', 'ProtocolError': 'ProtoErr', 'Error': 'Err',
-    'IncompleteMessageType': 'IncompleteType', 'ErrorKind': 'IoKind',
+    'IncompleteMessageType': 'IncompleteType', 'ErrorKind': 'IoKind', 'IoErrorKind': 'IoKind',
 }
-VARIANT_RENAME = {('ErrorKind', 'ConnectionReset'): 'reset'}
+VARIANT_RENAME = {('ErrorKind', 'ConnectionReset'): 'reset', ('IoErrorKind', 'ConnectionReset'): 'reset'}
 
 SELF_FIELDS = {
     ('state',): '.c.state', ('role',): '.c.role', ('additional_send',): '.c.additional',
@@ -116,9 +116,12 @@ def self_field_path(e):
 
 
 class Env:
-    def __init__(self, fn, ret_result):
+    def __init__(self, fn, ret_result, sites=None):
         self.fn = fn
         self.ret_result = ret_result
+        self.sites = PANIC_SITES if sites is None else sites
+        self.pre = []           # statements a value computation needs in front of it (shared)
+        self.loop = None        # inside a translated loop: {'brk': bool, 'ret': bool}
         self.vars = {}          # name -> {'kind': 'V'|'R', 'mut': bool, 'alias': None|field}
         self.counter = {}
         self.fresh = 0
@@ -129,13 +132,15 @@ class Env:
         k = self.counter.get(what, 0)
         self.counter[what] = k + 1
         key = (self.fn, what, k)
-        if key not in PANIC_SITES:
+        if key not in self.sites:
             raise TranslateError(f'{self.fn}: a new panic site `{what}` #{k} appeared in the source')
-        return 'PanicSite.' + PANIC_SITES[key]
+        return 'PanicSite.' + self.sites[key]
 
     def child(self):
-        e = Env(self.fn, self.ret_result)
+        e = Env(self.fn, self.ret_result, self.sites)
         e.vars = dict(self.vars)
+        e.pre = self.pre
+        e.loop = self.loop
         e.counter = self.counter
         e.fresh = self.fresh
         e.loop_helper = self.loop_helper
@@ -144,8 +149,33 @@ class Env:
 
 
 class Tr:
+    SELF_FIELDS = SELF_FIELDS
+    SELF_SETTERS = SELF_SETTERS
+    FIELD_RENAME = FIELD_RENAME
+    SKIP_PARAMS = ('stream',)
+
     def __init__(self, fn_specs):
         self.specs = fn_specs    # rust name -> dict(lean, params, ret_lean, ret_result)
+        self.helpers = []        # Lean definitions (loops) that go in front of the current function
+        self.cur_sig = ('', '')  # (generic binder, parameter binders) of the current function
+
+    # hooks for other translation units (return None = not handled here)
+    def leaf_mcall(self, e, env):
+        return None
+
+    def leaf_call(self, e, env):
+        return None
+
+    def leaf_stmt(self, e, env, ind):
+        return None
+
+    def leaf_effect(self, e, env):
+        return None
+
+    def take_pre(self, env, ind):
+        lines = [ind + l for l in env.pre]
+        del env.pre[:]
+        return lines
 
     def fail(self, env, msg):
         raise TranslateError(f'{env.fn}: {msg}')
@@ -208,7 +238,14 @@ class Tr:
     def has_effect(self, e, env):
         if e is None:
             return False
+        h = self.leaf_effect(e, env)
+        if h is not None:
+            return h
         k = e[0]
+        if k in ('while', 'break'):
+            return True
+        if k == 'range':
+            return self.has_effect(e[2], env) or self.has_effect(e[3], env)
         if k in ('try', 'return', 'assign', 'loop'):
             return True
         if k == 'macro':
@@ -313,18 +350,26 @@ class Tr:
         if k == 'field':
             sp = self_field_path(e)
             if sp is not None:
-                if sp not in SELF_FIELDS:
+                if sp not in self.SELF_FIELDS:
                     self.fail(env, f'field self.{".".join(sp)} is not modelled')
-                return 'V', f'(← getW){SELF_FIELDS[sp]}'
+                return 'V', f'(← getW){self.SELF_FIELDS[sp]}'
             kind, t = self.classify(e[1], env)
             if kind != 'V':
                 self.fail(env, 'field of a non-value')
-            return 'V', f'{paren(t)}.{FIELD_RENAME.get(e[2], e[2])}'
+            return 'V', f'{paren(t)}.{self.FIELD_RENAME.get(e[2], e[2])}'
         if k == 'unary':
             kind, t = self.val(e[2], env)
             if e[1] == '!':
                 return 'V', f'!{paren(t)}'
+            if e[1] == '*':
+                return kind, t      # a dereference of a borrowed value
             self.fail(env, f'unary {e[1]}')
+        if k == 'cast':
+            if e[2].replace(' ', '') not in ('usize', 'u64', '_'):
+                self.fail(env, f'cast to {e[2]}')
+            return 'V', self.v(e[1], env)   # lengths are unbounded naturals in the model
+        if k == 'tuple':
+            return 'V', '(' + ', '.join(self.v(x, env) for x in e[1]) + ')'
         if k == 'bin':
             op = e[1]
             a = paren(self.v(e[2], env))
@@ -377,6 +422,9 @@ class Tr:
         self.fail(env, f'expression form {k}')
 
     def classify_call(self, e, env):
+        h = self.leaf_call(e, env)
+        if h is not None:
+            return h
         f, args = e[1], e[2]
         if f[0] != 'path':
             self.fail(env, 'call of a computed function')
@@ -404,7 +452,15 @@ class Tr:
         c = self.enum_ctor(segs, env)
         if c:
             if c == 'Err.writeBufferFull':
-                self.fail(env, 'constructing WriteBufferFull')
+                a = args[0]
+                if a[0] == 'call' and a[1][0] == 'path' and a[1][1][-2:] == ['Message', 'Frame'] and len(a[2]) == 1:
+                    return 'V', f'Err.writeBufferFull {paren(self.v(a[2][0], env))}'
+                self.fail(env, 'WriteBufferFull must carry Message::Frame(..)')
+            if c == 'Err.capacity':
+                a = args[0]
+                if a[0] == 'struct' and a[1][-2:] == ['CapacityError', 'MessageTooLong'] and [f for f, _ in a[2]] == ['size', 'max_size']:
+                    return 'V', 'Err.capacity ' + ' '.join(paren(self.v(x, env)) for _, x in a[2])
+                self.fail(env, 'Capacity must carry MessageTooLong { size, max_size }')
             return 'V', c + ' ' + ' '.join(paren(self.v(a, env)) for a in args)
         self.fail(env, f'call of {name} is not in the leaf table')
 
@@ -419,6 +475,9 @@ class Tr:
         self.fail(env, 'function value')
 
     def classify_mcall(self, e, env):
+        h = self.leaf_mcall(e, env)
+        if h is not None:
+            return h
         _, recv, m, args = e
         argv = [a for a in args if a != ('path', ['stream'])]
         if is_self(recv):
@@ -468,9 +527,12 @@ class Tr:
             if m == 'check_connection_reset':
                 return 'R', f'resCheckConnectionReset {r} {paren(self.v(args[0], env))}'
             self.fail(env, f'method {m} on a Result value')
-        simple = {'is_some': '.isSome', 'is_none': '.isNone', 'clone': '', 'as_ref': '', 'header': '.header',
+        simple = {'is_empty': '.isEmpty', 'is_some': '.isSome', 'is_none': '.isNone', 'clone': '', 'as_ref': '', 'header': '.header',
                   'payload': '.payload', 'into_payload': '.payload', 'len': '.length', 'kind': '',
                   'is_masked': '.header.mask.isSome', 'is_active': '.isActive', 'can_read': '.canRead'}
+        if m == 'len' and not args and recv[0] == 'path' and len(recv[1]) == 1 and \
+                env.vars.get(recv[1][0], {}).get('type') == 'Frame':
+            return 'V', f'Frame.len {r}'
         if m in simple and not args:
             return 'V', (r + simple[m]) if simple[m] else r
         if m == 'is_allowed' and not args:
@@ -558,12 +620,38 @@ class Tr:
     def stmt(self, s, env, ind):
         if s[0] == 'let':
             _, p, ty, init = s
+            if init is None:
+                self.fail(env, 'let without initialiser')
+            if p[0] == 'ptuple' and all(q[0] in ('bind', 'wild') for q in p[1]):
+                # `let (mut a, b) = e;`
+                kind, t = self.val(init, env)
+                if kind != 'V':
+                    self.fail(env, 'destructuring a Result')
+                names = []
+                post = []
+                for q in p[1]:
+                    if q[0] == 'wild':
+                        names.append('_')
+                        continue
+                    env.vars[q[1]] = {'kind': 'V', 'mut': q[3], 'alias': None}
+                    if q[3]:
+                        env.fresh += 1
+                        tmp = f'__d{env.fresh}'
+                        names.append(tmp)
+                        post.append(f'{ind}let mut {lname(q[1])} := {tmp}')
+                    else:
+                        names.append(lname(q[1]))
+                return self.take_pre(env, ind) + [f'{ind}let ({", ".join(names)}) := {t}'] + post
             if p[0] != 'bind':
                 self.fail(env, 'destructuring let')
             name, is_mut = p[1], p[3]
             mut = 'mut ' if is_mut else ''
-            if init is None:
-                self.fail(env, 'let without initialiser')
+            if init[0] == 'loop':
+                call = self.loop_helper(init, env)
+                env.vars[name] = {'kind': 'V', 'mut': is_mut, 'alias': None}
+                return [f'{ind}let {mut}{lname(name)} ← match (← {call}) with',
+                        f'{ind}  | LoopOut.brk __b => pure __b',
+                        f'{ind}  | LoopOut.ret __r => return __r']
             if init[0] in ('if', 'match', 'block') and self.has_effect(init, env):
                 lines = self.ctl(init, env, 'val', ind + '  ')
                 j = 0
@@ -575,21 +663,107 @@ class Tr:
                 return res
             kind, t = self.val(init, env)
             env.vars[name] = {'kind': kind, 'mut': is_mut, 'alias': None}
-            return [f'{ind}let {mut}{lname(name)} := {t}']
+            if ty is not None and ty.replace(' ', '') in ('Frame',):
+                env.vars[name]['type'] = ty.replace(' ', '')
+            return self.take_pre(env, ind) + [f'{ind}let {mut}{lname(name)} := {t}']
         e = s[1]
         return self.effect_stmt(e, env, ind)
+
+    # ------------------------------------------------------------ loops
+    def loop_params(self, env):
+        """the locals a loop body may read: passed to the helper as parameters"""
+        return [n for n in env.vars if n != 'self']
+
+    def loop_helper(self, e, env, fuel=None):
+        """`loop { .. break v; .. return r; .. }` / `while c { .. }` as a fuel-recursive helper that
+        yields `LoopOut.brk v` or `LoopOut.ret r`; returns the call"""
+        kind = e[0]
+        self.loop_no = getattr(self, 'loop_no', {})
+        n = self.loop_no.get(env.fn, 0) + 1
+        self.loop_no[env.fn] = n
+        name = f'{self.specs[env.fn]["lean"]}Loop{n}'
+        names = self.loop_params(env)
+        henv = env.child()
+        henv.pre = []
+        henv.loop = {'kind': kind}
+        for v in names:
+            henv.vars[v] = dict(env.vars[v], mut=False)
+        body = e[1] if kind == 'loop' else e[2]
+        ret_t = self.specs[env.fn]['ret_lean']
+        gen, sig_types = self.cur_sig
+        binders = ''.join(f' ({lname(v)} : {self.var_lean_type(env, v)})' for v in names)
+        lines = [f'/-- {"a `loop`" if kind == "loop" else "the `while` loop"} of `{env.fn}` (fuel-bounded) -/',
+                 f'def {name}{gen}{binders} : Nat → M (LoopOut {paren(self.loop_break_type(env)) if kind == "loop" else "Unit"} {paren(ret_t)})']
+        call_args = ''.join(f' {lname(v)}' for v in names)
+        if kind == 'loop':
+            lines.append('  | 0 => panicAt PanicSite.fuel')
+            lines.append('  | fuel + 1 => do')
+            lines += self.seq(body, henv, 'unit', '    ')
+            lines.append(f'    {name}{call_args} fuel')
+        else:
+            cond0 = self.v(e[1], henv)
+            lines.append('  | 0 => do')
+            lines.append(f'    if {cond0} then')
+            lines.append('      panicAt PanicSite.fuel')
+            lines.append('    else')
+            lines.append('      pure (LoopOut.brk ())')
+            lines.append('  | fuel + 1 => do')
+            lines.append(f'    if {self.v(e[1], henv)} then')
+            lines += self.seq(body, henv, 'unit', '      ')
+            lines.append(f'      {name}{call_args} fuel')
+            lines.append('    else')
+            lines.append('      pure (LoopOut.brk ())')
+        lines.append('')
+        self.helpers += lines
+        env.fresh = max(env.fresh, henv.fresh)
+        return f'{name}{call_args} (← {self.loop_fuel(env, n)})'
+
+    def var_lean_type(self, env, v):
+        t = env.vars[v].get('ltype')
+        if t is None:
+            self.fail(env, f'the type of `{v}` (used inside a loop) is not known to the translator')
+        return t
+
+    def loop_break_type(self, env):
+        self.fail(env, 'this unit has no loops with values')
+
+    def loop_fuel(self, env, n):
+        self.fail(env, 'this unit has no fuel table')
 
     def effect_stmt(self, e, env, ind):
         k = e[0]
         if self.is_skip(e):
             return []
+        h = self.leaf_stmt(e, env, ind)
+        if h is not None:
+            return h
+        if k == 'while':
+            call = self.loop_helper(e, env)
+            return [f'{ind}match (← {call}) with',
+                    f'{ind}| LoopOut.brk _ => pure ()',
+                    f'{ind}| LoopOut.ret __r => return __r']
+        if k == 'break':
+            if env.loop is None or env.loop['kind'] != 'loop':
+                self.fail(env, '`break` outside a translated `loop`')
+            if e[1] is None:
+                self.fail(env, '`break` without a value')
+            t = self.v(e[1], env)
+            return self.take_pre(env, ind) + [f'{ind}return (LoopOut.brk {paren(t)})']
+        if k == 'macro' and e[1] in ('assert', 'debug_assert', 'assert_eq', 'debug_assert_eq') and e[2]:
+            site = env.site(e[1])
+            if e[1].endswith('_eq'):
+                c = f'{paren(self.v(e[2][0], env))} != {paren(self.v(e[2][1], env))}'
+            else:
+                c = f'!{paren(self.v(e[2][0], env))}'
+            return self.take_pre(env, ind) + [f'{ind}if {c} then', f'{ind}  panicAt {site}']
         if k == 'assign':
             lhs, rhs = e[1], e[2]
             sp = self_field_path(lhs)
             if sp is not None:
-                if len(sp) != 1 or sp[0] not in SELF_SETTERS:
+                if len(sp) != 1 or sp[0] not in self.SELF_SETTERS:
                     self.fail(env, f'assignment to self.{".".join(sp)}')
-                return [f'{ind}{SELF_SETTERS[sp[0]]} {paren(self.v(rhs, env))}']
+                t = paren(self.v(rhs, env))
+                return self.take_pre(env, ind) + [f'{ind}{self.SELF_SETTERS[sp[0]]} {t}']
             if lhs[0] == 'path' and len(lhs[1]) == 1 and lhs[1][0] in env.vars:
                 if not env.vars[lhs[1][0]]['mut']:
                     self.fail(env, f'assignment to immutable {lhs[1][0]}')
@@ -643,11 +817,22 @@ class Tr:
     def ret(self, e, env, ind):
         if e is None:
             return [f'{ind}return ()']
+        if env.loop is not None:
+            # inside a loop helper: errors travel in the monad, values leave through LoopOut.ret
+            if env.ret_result and e[0] == 'call' and e[1] == ('path', ['Err']):
+                t = paren(self.v(e[2][0], env))
+                return self.take_pre(env, ind) + [f'{ind}throwE {t}']
+            if env.ret_result and e[0] == 'call' and e[1] == ('path', ['Ok']):
+                t = paren(self.v(e[2][0], env))
+                return self.take_pre(env, ind) + [f'{ind}return (LoopOut.ret {t})']
+            self.fail(env, 'this form of `return` inside a loop')
         if env.ret_result:
             if e[0] == 'call' and e[1] == ('path', ['Err']):
-                return [f'{ind}throwE {paren(self.v(e[2][0], env))}']
+                t = paren(self.v(e[2][0], env))
+                return self.take_pre(env, ind) + [f'{ind}throwE {t}']
             if e[0] == 'call' and e[1] == ('path', ['Ok']):
-                return [f'{ind}return {self.v(e[2][0], env)}']
+                t = self.v(e[2][0], env)
+                return self.take_pre(env, ind) + [f'{ind}return {t}']
             kind, t = self.classify(e, env)
             if kind == 'M':
                 return [f'{ind}return (← {t})']
@@ -679,7 +864,8 @@ class Tr:
             return [f'{ind}pure {paren(t)}']
         # mode == 'ret', function returns Result
         if k == 'call' and e[1] == ('path', ['Ok']):
-            return [f'{ind}pure {paren(self.v(e[2][0], env))}']
+            t = paren(self.v(e[2][0], env))
+            return self.take_pre(env, ind) + [f'{ind}pure {t}']
         if k == 'call' and e[1] == ('path', ['Err']):
             return [f'{ind}throwE {paren(self.v(e[2][0], env))}']
         kind, t = self.classify(e, env)
@@ -727,11 +913,14 @@ class Tr:
             p = self.pat(pat_ast, sub, skind)
             if alias:
                 sub.vars[pat_ast[2][0][1]]['alias'] = alias
+            out += self.take_pre(env, ind)
             out.append(f'{ind}if let {p} := {st} then')
             out += self.seq(self.as_block(then), sub, mode, ind + '  ')
             env.fresh = max(env.fresh, sub.fresh)
         else:
-            out.append(f'{ind}if {self.v(c, env)} then')
+            ct = self.v(c, env)
+            out += self.take_pre(env, ind)
+            out.append(f'{ind}if {ct} then')
             out += self.branch(then, env, mode, ind + '  ')
         if els is not None:
             out.append(f'{ind}else')
@@ -807,7 +996,7 @@ class Tr:
     def match_(self, e, env, mode, ind):
         _, scrut, arms = e
         skind, st = self.val(scrut, env)
-        out = []
+        out = self.take_pre(env, ind)
         # the scrutinee is named so that a guard that fails can fall through and re-match
         if any(g is not None for _, g, _ in arms) and not re.fullmatch(r'[A-Za-z_][A-Za-z0-9_]*', st):
             env.fresh += 1
